@@ -53,7 +53,7 @@ def generate(rng: random.Random, tier: str) -> dict:
     tl = int(timeout * 1024)
     kind = rng.choice(EST_KINDS)
     est = {"kind": kind, "form": rng.choice(FORMS), "latency": rng.choice([0, 1, 20, 300]), "announce_at": rng.choice([0, 1, 10, 200]),
-           "status": rng.choice([404, 500, 401, 204, 302]), "pre_comment": rng.random() < 0.3}
+           "status": rng.choice([404, 500, 401, 204, 302]), "pre_comment": rng.random() < 0.3, "greet": rng.random() < 0.15}
     if kind == "slow_announce":
         est["latency"] = 0
         est["announce_at"] = tl + rng.choice([-10, -1, 0, 1, 10])
@@ -140,7 +140,7 @@ def simplify(scn):
     if scn["exit"]["path"] != "normal":
         c = copy.deepcopy(scn); c["exit"] = {"path": "normal", "tie": 0, "hops": 0}; yield c
     e = scn["est"]
-    for key, val in (("latency", 0), ("announce_at", 0), ("pre_comment", False), ("form", "event_endpoint")):
+    for key, val in (("latency", 0), ("announce_at", 0), ("pre_comment", False), ("greet", False), ("form", "event_endpoint")):
         if e.get(key) != val and e["kind"] == "ok":
             c = copy.deepcopy(scn); c["est"][key] = val; yield c
     for i, m in enumerate(scn["msgs"]):
@@ -241,9 +241,18 @@ def execute(scn: dict) -> dict:
                 def announce():
                     if est.get("pre_comment"):
                         stream.push(b": welcome\n\n")
-                    if push_bytes(announcement_bytes(), "endpoint"):
+                    data = announcement_bytes()
+                    gobj = None
+                    if est.get("greet"):
+                        # the server greets in the same write as the endpoint announcement
+                        gobj = {"jsonrpc": "2.0", "method": "notifications/message", "params": {"data": "greeting", "j": -1}}
+                        data += _sse_event(gobj)
+                    if push_bytes(data, "endpoint"):
                         st["announced_at"] = sim.now()
                         st["announce_eseq"] = sim.eseq
+                        if gobj is not None:
+                            st["stream_log"].append({"eseq": sim.eseq, "t": sim.now(), "what": "push", "meta": gobj, "pieces": 0})
+                            sim.probe("greeting_coalesced_with_endpoint")
                 sim.at(sim.now() + ticks(est["announce_at"]), announce, tie=0)
                 sim.at(sim.now() + timeout / 2, keepalive, tie=2)
                 for p in scn["pushes"]:
@@ -418,8 +427,9 @@ def execute(scn: dict) -> dict:
                 sim.rec("body", "context-left", st.get("ctx_outcome"))
                 # census at the very instant the context has been left (not after things had time to die down by themselves)
                 me = asyncio.current_task()
+                # (the interpreter's own one-iteration finaliser for an abandoned async generator - a task around agen.aclose() - is not a library task)
                 st["tasks_at_left"] = sorted(t.get_name() + ":" + getattr(t.get_coro(), "__qualname__", "?") for t in asyncio.all_tasks()
-                                             if not t.done() and t is not me and t is not main_task)
+                                             if not t.done() and t is not me and t is not main_task and type(t.get_coro()).__name__ == "coroutine")
                 st["posts_in_flight_at_left"] = [r["i"] for r in transport.requests if r["method"] == "POST" and not r.get("returned")]
 
         main_task = asyncio.current_task()
